@@ -19,7 +19,14 @@ SeqsUpTo(S, n) == UNION {[1..k -> S] : k \in 1..n}
 \* on the half-open trial / freshly readmitted backend ("wait" is a pause of 1.2 s, not a request)
 Recovery == {<<a, a, "wait", b>> : a \in {"s500", "refuse", "reset_after_headers"}, b \in Alphabet}
             \cup {<<a, a, "wait", b, "wait", b>> : a \in {"s500"}, b \in {"s500", "reset_after_headers", "short_body", "client_abort_down"}}
-Cases(n, strategies, feats) == [faults : SeqsUpTo(Alphabet, n) \cup Recovery, strategy : strategies, f : feats]
+\* solo cases run one at a time, before everything else: a faulted exchange immediately followed by a healthy one
+\* ("none") whose status AND body are checked -- nothing of one exchange may leak into the next
+Leak == {<<a, "none">> : a \in {"short_body", "reset_after_headers", "client_abort_down", "slow_body", "s500"}}
+         \cup {<<a, a, "none", "none">> : a \in {"short_body", "client_abort_down"}}
+SoloCases == [faults : Leak, strategy : {"round_robin"}, solo : {TRUE},
+              f : {[cb |-> FALSE, rl |-> FALSE, passive |-> FALSE, plugins |-> p] : p \in BOOLEAN}]
+Cases(n, strategies, feats) == [faults : SeqsUpTo(Alphabet, n) \cup Recovery, strategy : strategies, f : feats, solo : {FALSE}]
+                                \cup SoloCases
 
 BoundMs == 5500     \* backend_read 1 s + server write 2 s + dial/transport slack
 
@@ -28,6 +35,8 @@ Check(c, o) ==
   (IF \E i \in DOMAIN o.reqs : ~o.reqs[i].ended THEN <<"RequestNeverEnded">> ELSE <<>>)
   \o (IF \E i \in DOMAIN o.reqs : o.reqs[i].ended /\ o.reqs[i].ms > BoundMs THEN <<"RequestTooSlow">> ELSE <<>>)
   \o (IF o.probe # 200 THEN <<"ProbeAfterFaultsFailed">> ELSE <<>>)
+  \o (IF \E i \in DOMAIN o.reqs : i <= Len(c.faults) /\ c.faults[i] = "none" /\ o.reqs[i].outcome # "status-200"
+      THEN <<"HealthyExchangeCorrupted">> ELSE <<>>)
   \o (IF o.second # 200 THEN <<"SecondProbeFailed">> ELSE <<>>)
   \o (IF ~o.gauges THEN <<"GaugeNotZero">> ELSE <<>>)
   \o (IF Len(o.reqs) # Cardinality({i \in DOMAIN c.faults : c.faults[i] # "wait"}) THEN <<"HarnessIncomplete">> ELSE <<>>)
